@@ -304,6 +304,11 @@ def build_matrices(job):
         return {"error_kind": "ValueError", "message": str(e)[:300], "state": int(m.group(1)) if m else None, "action": int(m.group(2)) if m else None}
     P = np.asarray(P, dtype=np.float64)
     R = np.asarray(R, dtype=np.float64)
+    if job.get("sparse"):
+        # large problems: only the non-zero transition entries travel back (action, state, successor, exact value)
+        nz = np.argwhere(P != 0)
+        return {"nz": [[int(a), int(s_), int(j)] for a, s_, j in nz], "nzv": _fx(P[P != 0]), "R": [_fx(row) for row in R], "pshape": list(P.shape), "rshape": list(R.shape),
+                "finite": bool(np.isfinite(P).all() and np.isfinite(R).all())}
     return {"P": [[_fx(row) for row in Pa] for Pa in P], "R": [_fx(row) for row in R], "pshape": list(P.shape), "rshape": list(R.shape)}
 
 
@@ -406,7 +411,8 @@ def ckpt_run(job):
     """Fresh process: build, run solve() calls with checkpointing, record a snapshot at every save() call."""
     _quiet()
     import jax
-    jax.config.update("jax_enable_x64", True)
+    if job.get("x64_first", True):   # False: the problem is built BEFORE 64-bit mode is on (the usual order in a fresh process)
+        jax.config.update("jax_enable_x64", True)
     problem = make_problem(job["problem"])
     name = job["solver"]
     cfg = dict(job["config"])
@@ -438,7 +444,8 @@ def ckpt_restore(job):
     _quiet()
     import jax
     import mdpax.solvers as ms
-    jax.config.update("jax_enable_x64", True)
+    if job.get("x64_first", True):   # False: the problem is built BEFORE 64-bit mode is on (the usual order in a fresh process)
+        jax.config.update("jax_enable_x64", True)
     name = job["solver"]
     cls = getattr(ms, SOLVERS[name])
     src = job["dir"]
@@ -596,19 +603,27 @@ def problem_tables(job):
     import numpy as np
     if job.get("x64", True):
         jax.config.update("jax_enable_x64", True)
+    earlier = [make_problem(q) for q in job.get("pre", [])]   # siblings built earlier in this process (kept alive)
     problem = make_problem(job["problem"])
     S, A, E = problem.state_space, problem.action_space, problem.random_event_space
     vt = jax.jit(jax.vmap(jax.vmap(jax.vmap(problem.transition, in_axes=(None, None, 0)), in_axes=(None, 0, None)), in_axes=(0, None, None)))
     vp = jax.jit(jax.vmap(jax.vmap(jax.vmap(problem.random_event_probability, in_axes=(None, None, 0)), in_axes=(None, 0, None)), in_axes=(0, None, None)))
+    own = jax.vmap(problem.state_to_index)(S)
+    nS_all = len(S)
+    sel = np.arange(nS_all)
+    if job.get("sample"):
+        # large spaces: the index of EVERY listed state, transitions from a seeded sample of the states only
+        rs = np.random.RandomState(int(job["sample"]["seed"]))
+        sel = np.unique(np.concatenate([rs.choice(nS_all, size=min(nS_all, int(job["sample"]["n"])), replace=False), [0, nS_all - 1]]))
+    Sfull, S = S, S[sel]
     ns, rw = vt(S, A, E)
     pr = vp(S, A, E)
     idx = jax.jit(jax.vmap(jax.vmap(jax.vmap(problem.state_to_index))))(ns)
-    own = jax.vmap(problem.state_to_index)(S)
     iv = jax.vmap(problem.initial_value)(S)
     nS, nA, nE = len(S), len(A), len(E)
-    np.savez(job["out"], states=np.asarray(S), actions=np.asarray(A), events=np.asarray(E),
+    np.savez(job["out"], states=np.asarray(Sfull), sample_idx=sel, actions=np.asarray(A), events=np.asarray(E),
              next=np.asarray(ns).reshape(nS, nA, nE, -1), reward=np.asarray(rw, dtype=np.float64).reshape(nS, nA, nE),
              prob=np.asarray(pr, dtype=np.float64).reshape(nS, nA, nE), idx=np.asarray(idx).reshape(nS, nA, nE),
              own=np.asarray(own).reshape(-1), init=np.asarray(iv, dtype=np.float64).reshape(-1))
-    return {"nS": nS, "nA": nA, "nE": nE, "prob_dtype": str(np.asarray(pr).dtype), "name": problem.name,
+    return {"nS": nS_all, "nA": nA, "nE": nE, "prob_dtype": str(np.asarray(pr).dtype), "name": problem.name,
             "state_dtype": str(np.asarray(S).dtype)}
